@@ -369,18 +369,41 @@ def check_no_broadcast_defaults(ctx, rule: str) -> None:
             txt = src(e)
             if "ValueSource.DEFAULT" in txt and isinstance(e, ast.Compare) and isinstance(e.ops[0], (ast.Eq, ast.Is)):
                 val[src(a)] = True
-            elif isinstance(e, ast.Compare) and isinstance(e.ops[0], (ast.NotIn, ast.In)) and ("map_config" in txt or "_map_over" in txt):
+            elif isinstance(e, ast.Compare) and isinstance(e.ops[0], (ast.NotIn, ast.In)) and ("map_config" in txt or "_map_over" in txt or any(isinstance(x, ast.Name) and len(ldefs.get(x.id, [])) == 1 and getattr(ldefs[x.id][0], "value", None) is not None and ("map_config" in src(ldefs[x.id][0].value) or "_map_over" in src(ldefs[x.id][0].value)) for x in ast.walk(e.comparators[0]))):
                 k, pos = norm_atom(e)
                 val[k] = False
                 val[src(ast.Compare(e.left, [ast.NotIn()], e.comparators))] = True
             elif ("GraphNode" in txt and "isinstance" in txt) or "map_config" in txt or "_map_over" in txt:
                 val[src(a)] = True
     live = reachable(cfg.entry, specialize(val, cfg)) if val else set(cfg.nodes)
+    # the same for a nested graph node that is *not* mapping: the copy it would be handed becomes a provided value
+    # of the nested run and is broadcast by a mapping node further down
+    val2 = dict(val)
+    for t in cfg.nodes:
+        if t.kind != "test" or t.ast is None:
+            continue
+        for a in test_atoms(t.ast):
+            e = a
+            if isinstance(a, ast.Name) and len(ldefs.get(a.id, [])) == 1 and getattr(ldefs[a.id][0], "value", None) is not None:
+                e = ldefs[a.id][0].value
+            for x in [e] + ([v_ for v_ in e.values] if isinstance(e, ast.BoolOp) else []):
+                tx = src(x)
+                if ("map_config" in tx or "_map_over" in tx) and not (isinstance(x, ast.Compare) and isinstance(x.ops[0], (ast.In, ast.NotIn))) and "isinstance" not in tx:
+                    val2[tx] = False
+                    if isinstance(x, ast.Compare) and isinstance(x.ops[0], ast.IsNot):
+                        val2[src(ast.Compare(x.left, [ast.Is()], x.comparators))] = True
+                if isinstance(e, ast.BoolOp) and "isinstance" in tx and "GraphNode" in tx:
+                    val2[tx] = True
+            if isinstance(e, ast.BoolOp) and src(a) in val2 and ("map_config" in src(e) or "_map_over" in src(e)):
+                del val2[src(a)]  # evaluate the conjunction from its parts
+    live2 = reachable(cfg.entry, specialize(val2, cfg)) if val2 else set(cfg.nodes)
     comp_ok = True
     for s_ in stores:
         if any(isinstance(x, (ast.DictComp, ast.ListComp, ast.GeneratorExp)) and any(isinstance(c, ast.Call) and "_resolve_input" in call_names(db, c, ci) for c in ast.walk(x)) for x in ast.walk(s_.ast)):
             comp_ok = False  # a comprehension over all inputs collects every parameter in one statement
     ok = bool(val) and comp_ok and not any(s_ in live for s_ in stores if comp_ok)
+    ok2 = bool(val2) and comp_ok and not any(s_ in live2 for s_ in stores if comp_ok)
+    rep.add(rule, f"{ci.qname}:no-default-through-plain-wrapper", ok2, ci.loc(), "a nested graph node that does not map receives no DEFAULT-class value either (the nested run resolves its own)" if ok2 else "a non-mapping nested graph node is still handed the outer copy of an inner signature default: it becomes a provided value of the nested run and a mapping node further down broadcasts it to all items")
     rep.add(rule, f"{ci.qname}:no-default-as-broadcast", ok, ci.loc(), "for a mapping graph node, DEFAULT-class values of non-mapped parameters are not collected (each item's run resolves its own copy)" if ok else "a signature default resolved (and deep-copied once) here is collected for a mapping graph node as well: it is broadcast to all items, which then share one mutable object — mapped items differ from runner.map / single runs")
 
 
